@@ -340,6 +340,7 @@ type c14Rec struct {
 	// afterSnapshot, if set, runs once inside WriteTx after the service has stored
 	// and acknowledged a snapshot upload and before LiteFS sees the answer
 	afterSnapshot func()
+	beforeFetch   func() // runs once at the start of the next FetchSnapshot
 }
 
 func (r *c14Rec) URL() string { return r.inner.URL() }
@@ -437,6 +438,13 @@ func (r *c14Rec) WriteTx(ctx context.Context, name string, rd io.Reader) (ltx.TX
 }
 
 func (r *c14Rec) FetchSnapshot(ctx context.Context, name string) (io.ReadCloser, error) {
+	r.mu.Lock()
+	bf := r.beforeFetch
+	r.beforeFetch = nil
+	r.mu.Unlock()
+	if bf != nil {
+		bf() // (the fetch takes its time: whatever happens to the node meanwhile happens here)
+	}
 	rc, err := r.inner.FetchSnapshot(ctx, name)
 	e := c14Event{Op: "FetchSnapshot", DB: name}
 	r.mu.Lock()
